@@ -321,6 +321,8 @@ def file_text(s):
                 cells.append(r['kind'])
             elif c == 'location':
                 cells.append(r['loc'])
+            elif c in r:
+                cells.append(str(r[c]))          # any other named capture carried by the row
             else:
                 cells.append('x1')
         if r['bad'] == 'short':
@@ -742,6 +744,10 @@ def toggle(spec, kind, i, rnd):
             return None
     elif kind == 'layout':
         b['layout'] = None if b.get('layout') else 'symlink-decoy'
+    elif kind == 'reverse':
+        if len(s['rows']) < 2:
+            return None
+        s['rows'] = list(reversed(s['rows']))
     elif kind == 'rename':
         taken = {x['name'] for x in b['sources']}
         s['name'] = next(n for n in ['Acct Nine', 'Acct Ten', 'Acct Eleven', 'Acct Twelve', 'Acct Thirteen'] if n not in taken)
@@ -761,6 +767,8 @@ def shrink_budget(spec, still_fails, max_steps=60):
     """Greedy delta debugging over sources, rules, variables/transforms, views and rows."""
     cur = copy.deepcopy(spec)
     steps = 0
+    if any(spec.get(k) for k in ('expect', 'expect_tags', 'expect_merchants')):
+        return cur       # hand-written expectations describe exactly this (already small) budget: keep it whole
 
     def attempt(cand):
         nonlocal cur, steps
